@@ -284,7 +284,7 @@ Section Algebra.
     | OT t1, OT t2 => term_eqb t1 t2
     | OT t, ON c | ON c, OT t => term_eqb t (const c)
     | OT t, OS s | OS s, OT t => sum_term_eqb s t
-    | OS s, ON c | ON c, OS s => sum_eqb s [const c]
+    | OS s, ON c | ON c, OS s => sum_term_eqb s (const c)     (* self == PauliTerm("I0", complex(other)) *)
     | OS s1, OS s2 => sum_eqb s1 s2
     | ON a, ON b => keqb a b
     end.
